@@ -1987,8 +1987,8 @@ func init() {
 			"created by SDL directive, by API before data, after data, dropped and re-created), database B without; same mutation history (collection API, GraphQL, UpdateWithFilter, DeleteWithFilter, " +
 			"commits merged from a third node); after every step a batch of generated queries (leaf operators per kind, _and/_or/_not depth<=3, order 1-3 keys, limit/offset, showDeleted, through-relation) on both. " +
 			"non-trivial = the indexed side's explain(execute) shows indexFetches>0 and the result is non-empty; distinct by (index classes, filter skeleton, order/limit class).",
-		Cases: func(seed uint64, tier string) []core.Case { return twinCases(seed, tierN(tier, 120, 2000), false) },
-		Run:   runTwin,
+		Cases:  func(seed uint64, tier string) []core.Case { return twinCases(seed, tierN(tier, 120, 2000), false) },
+		Run:    runTwin,
 		Floors: twinFloors, CaseTimeout: 300 * time.Second,
 		Assumptions: []string{"the index-free twin is the reference: its scan path is judged by C08, not here",
 			"uniqueness predicate for composite unique indexes: only tuples whose components are all non-null are constrained",
